@@ -166,20 +166,20 @@ CHECKS = {
               "(Stream_flow.step_Ginv, ~3000 lines). The safety half of 'eventually delivered' IS proved (c01_quiescent_all_delivered, Proofs/Stream_quiet.v): in every reachable state in which nothing is "
               "pending (StreamQuiet.quiescentb: links and queues empty, no wait set holds a descriptor an eager environment reports ready) every byte read has been handed to the other socket unless that end "
               "aborted or is still connecting; and the LIVENESS half is proved too (c01_eager_drain, c01_eventual_delivery; Proofs/Stream_drain.v): from every reachable state without stale delivery an explicit finite eager schedule (no new connections, recv answers 'nothing more', send accepts everything, connects complete; "
-              "StreamDrain.drain_of, justified by a strictly decreasing variant mu over all micro-steps) reaches, without raising, a quiescent (or stale) state, in which every byte read before has been handed on unless that socket failed. Not proved: that the drain itself never produces a stale delivery or a new socket fault (kept as escape clauses; c01_eventual_delivery_full). "
+              "StreamDrain.drain_of, justified by a strictly decreasing variant mu over all micro-steps) reaches, without raising, a quiescent (or stale) state, in which every byte read before has been handed on unless that socket failed. The escape clauses are removed under the boolean hypothesis drain_cleanb (no frame or unsent byte of an older incarnation of a re-used identifier is still on the way; implied by no_reuseb): c01_drain_clean, c01_eager_never_stale (every eager schedule), c01_eager_no_new_fault, c01_eventual_delivery_clean, c01_eventual_delivery_full_clean; the unconditional form is refuted with a 9-step witness (c01_drain_unconditional_refuted) — Proofs/Stream_drain_clean.v; 14 theorems in Props/C01.v. "
               "The harness checks delivery at quiescence on every generated schedule and that the real loops' calm implies the model's quiescentb. Tied to /repo by running the REAL ssnet.runonce/Proxy/Mux/SockWrapper/MuxWrapper, "
               "client.onaccept_tcp and server.main's new_channel on fake sockets, logging every micro-step with its socket outcomes, replaying the log on the extracted model and comparing the full state of both ends after every iteration. The tunnel's own file objects are covered too: the real ssh.connect (process creation faked, real socket pair) must never hold unread tunnel bytes where select cannot see them."),
         note="modelled not verified: kernel TCP sockets (outcomes are the environment's answers; send after shutdown fails with EPIPE), select readiness, the frame-level ssh link (its byte-level refinement is C07). Ghost flow numbers are model-only. The drain theorem quantifies over ONE eager schedule (existence), not over all fair schedules.",
         design="DESIGN.md §5 C01",
         technique="Coq proof (inductive pipeline invariant over all micro-step sequences, abstract view transition system + projection lemma) + micro-step-log differential correspondence"),
     "C02": dict(
-        text=("12 theorems (Props/C02.v) on the same model and invariant as C01: if shutdown(SHUT_WR) was issued on the receiving socket and no socket call of that end failed, "
+        text=("14 theorems (Props/C02.v) on the same model and invariant as C01: if shutdown(SHUT_WR) was issued on the receiving socket and no socket call of that end failed, "
               "every byte read at the sending end was delivered first and the sender stopped reading (both directions, every reachable state without stale delivery); no stream "
               "payload follows a flow's EOF on the wire; the two directions are independent (half-close loses nothing); EOF/STOP are never echoed; a flow declared finished has both "
               "sockets shut, both buffers empty and both mux flags set. F22 (data-less half-close before the remote connect completes) is refuted with a kernel-evaluated witness and "
               "listed as a known finding, F20 (lingering handler) likewise observed on the real code. The quiescence sentence is proved in its safety form over quiescent states (Proofs/Stream_quiet.v): no undelivered data anywhere in the pipeline (c02_no_stuck_data); "
               "every remaining handler waits for its socket, for its peer, for a pending connect, or has the F20 shape (c02_quiet_handler_shape); no handler waits for a peer that is gone or that waits for it "
-              "(c02_no_stuck_state_partial); the unrestricted sentence is refuted with the F20 witness (c02_no_stuck_state_refuted). That the loops reach such a state IS proved (c02_eventually_not_stuck, c02_drain_schedule; Proofs/Stream_drain.v: explicit eager schedule with a strictly decreasing variant, no step raises). On every quiescent generated run the harness also requires that the two tunnel ends of a flow agree on which directions are closed (the pairing the invariant proves)."),
+              "(c02_no_stuck_state_partial); the unrestricted sentence is refuted with the F20 witness (c02_no_stuck_state_refuted). That the loops reach such a state IS proved (c02_eventually_not_stuck, c02_drain_schedule; Proofs/Stream_drain.v: explicit eager schedule with a strictly decreasing variant, no step raises; without the stale-delivery escape clause from every clean state: c02_eventually_not_stuck_clean, c02_drain_schedule_clean). On every quiescent generated run the harness also requires that the two tunnel ends of a flow agree on which directions are closed (the pairing the invariant proves)."),
         note="as C01. 'Bounded work' is the variant mu of the drain (a natural number computed from the state); the drain theorem is an existence statement for one eager schedule.",
         design="DESIGN.md §5 C02",
         technique="Coq proof (same inductive invariant; vi_clean / vi_dae clauses) + micro-step-log differential correspondence with close-order scenarios"),
@@ -199,11 +199,11 @@ CHECKS = {
         design="DESIGN.md §5 C08",
         technique="Coq proof (total step function with explicit Crash constructor; case analysis + registration/frame invariants) + fault-injection correspondence"),
     "C09": dict(
-        text=("10 theorems (Props/C09.v): while an end waits for the acknowledgement no batch of callbacks/pre_selects of any flows queues a byte of stream payload, otherwise at most 2048 bytes "
+        text=("11 theorems (Props/C09.v): while an end waits for the acknowledgement no batch of callbacks/pre_selects of any flows queues a byte of stream payload, otherwise at most 2048 bytes "
               "per callback (so one loop iteration overshoots by at most 2048 x callbacks; runonce issues <= 4 per connection); check_fullness queues exactly one PING and pauses; every PING "
               "handled is answered regardless of the pause state; a PONG resumes and resets the budget; with latency control off no end is ever paused, in any run. "
               "'Every such request is eventually answered, so transfers always resume': proved in invariant form (Proofs/Stream_quiet.v) — while an end is paused its probe is OUTSTANDING (the PING 'rttest' is in its queue or on the link, or the PONG is in the peer's queue or on the link back: c09_outstanding, all runs, all I/O); "
-              "hence with all queues and links drained no end is paused (c09_never_wedged) and a paused end is never part of a quiescent state (c09_paused_not_quiescent). And the pause ENDS: from every reachable state without stale delivery the eager schedule reaches, without raising, a state where neither end is paused (c09_pause_ends; Proofs/Stream_drain.v). "
+              "hence with all queues and links drained no end is paused (c09_never_wedged) and a paused end is never part of a quiescent state (c09_paused_not_quiescent). And the pause ENDS: from every reachable state without stale delivery the eager schedule reaches, without raising, a state where neither end is paused (c09_pause_ends; Proofs/Stream_drain.v; from clean states without the stale-delivery escape clause: c09_pause_ends_clean). "
               "the harness's quiescence oracles report a stuck transfer and any complete message left undispatched in a Mux input buffer."),
         note="as C01. The per-connection constant relies on runonce calling a Proxy at most once per entry of its 4-element socks list (checked by the correspondence, not proved).",
         design="DESIGN.md §5 C09",
